@@ -2,7 +2,7 @@
    (the limiter on its own).  Model: model/Limiter.v - session.py:57-89 on CPython 3.12's
    asyncio.Semaphore.  Every theorem is over ALL label sequences (labels that are not enabled
    are no-ops); the only hypothesis is the property's own: targets are at least 1. *)
-From AV Require Import Base Limiter LimiterProofs.
+From AV Require Import Base Limiter LimiterProofs Gen_session Throttle ThrottleProofs.
 Local Open Scope Z_scope.
 
 Definition targets_ge_1 (ls : list label) : Prop := Forall ok_label ls.
@@ -72,6 +72,64 @@ Example C13_ex :
   holders st = [3%N] /\ semv st = 1 /\ waiters st = [] /\ value st = 0 /\ targets_ge_1 [SetTarget 1].
 Proof. cbn. repeat split. constructor; [cbn; lia|constructor]. Qed.
 
+(* ---------- the session level: the request-processing coroutines against the limiter (model/Throttle.v) ---------- *)
+(* the shape of RPCSession._throttled_request and MessageSession._throttled_message - regenerated from
+   the source on every run - is the one the theorems below need: the handler is awaited only inside the
+   limiter's block, the block is entered once, as the very first thing a request does, and is left again *)
+Theorem C13_session_shape :
+  bracketed throttled_request_ops = true /\ bracketed throttled_message_ops = true /\
+  acquire_first_once throttled_request_ops = true /\ acquire_first_once throttled_message_ops = true /\
+  existsb is_handle throttled_request_ops = true /\ existsb is_handle throttled_message_ops = true.
+Proof. vm_compute. repeat split. Qed.
+
+(* for EVERY well-bracketed coroutine and every sequence of arrivals, first steps, resumptions, wake-ups,
+   cancellations of queued and of running requests and limit changes (limits of at least 1):
+   every running handler holds a permit, so the handlers running at once are never more than the largest
+   limit that has been in force, nor more than the current limit plus the excess a lowering left
+   (which every exit retires by one: C13_lowering) *)
+Theorem C13_session_bound : forall ops t ls, bracketed ops = true -> 1 <= t -> Forall tok_label ls ->
+  let st := trun ops t ls in
+  incl (running st) (holders (lim st)) /\ NoDup (running st) /\
+  Z.of_nat (length (running st)) <= maxt (lim st) /\
+  Z.of_nat (length (running st)) <= target (lim st) + excess (lim st).
+Proof.
+  intros ops t ls Hb Ht Hl st. pose proof (trun_inv ops t ls Hb Ht Hl) as H. fold st in H.
+  pose proof (running_le_holders st H) as Hlen. pose proof (i_lim _ _ H) as Hi.
+  pose proof (inv_holders_le_semv _ Hi). pose proof (holders_le_target_plus_excess _ Hi).
+  destruct Hi as [(_ & _ & Hs & _) _].
+  split; [now apply running_hold|]. split; [apply (i_running_nodup _ _ H)|]. split; lia.
+Qed.
+
+Theorem C13_request_handlers_bounded : forall t ls, 1 <= t -> Forall tok_label ls ->
+  let st := trun throttled_request_ops t ls in Z.of_nat (length (running st)) <= maxt (lim st).
+Proof. intros t ls Ht Hl. refine (proj1 (proj2 (proj2 (C13_session_bound throttled_request_ops t ls _ Ht Hl)))). apply C13_session_shape. Qed.
+
+Theorem C13_message_handlers_bounded : forall t ls, 1 <= t -> Forall tok_label ls ->
+  let st := trun throttled_message_ops t ls in Z.of_nat (length (running st)) <= maxt (lim st).
+Proof. intros t ls Ht Hl. refine (proj1 (proj2 (proj2 (C13_session_bound throttled_message_ops t ls _ Ht Hl)))). apply C13_session_shape. Qed.
+
+(* no permit is leaked: every holder is a request that is still there (suspended inside the block) *)
+Theorem C13_session_no_leak : forall ops t ls, bracketed ops = true -> 1 <= t -> Forall tok_label ls ->
+  let st := trun ops t ls in forall w, In w (holders (lim st)) -> In w (map fst (reqs st)).
+Proof. intros ops t ls Hb Ht Hl st. apply holders_live. now apply trun_inv. Qed.
+
+(* requests ask the limiter for their permit in the order in which they arrived (and the limiter hands
+   permits to its queue first come, first served: C13_fifo, C13_exit_serves_head) *)
+Theorem C13_session_arrival_order : forall t ls,
+  (let st := trun throttled_request_ops t ls in arrived st = asked st ++ ready st) /\
+  (let st := trun throttled_message_ops t ls in arrived st = asked st ++ ready st).
+Proof. intros t ls. split; apply trun_arrival_order; apply C13_session_shape. Qed.
+
+(* non-vacuity: limit 2, three requests; the third waits until the first has finished and left the block *)
+Example C13_session_ex :
+  let ls := [TArrive 1; TArrive 2; TArrive 3; TFirst; TFirst; TFirst; TResume 1; TResume 2; TResume 1]%N in
+  let st := trun [TAcquire; TSleep; THandle; TRelease; TAwait] 2 ls in
+  running st = [2%N] /\ holders (lim st) = [2%N] /\ waiting st = [3%N] /\ asked st = [1; 2; 3]%N /\
+  running (tstep [TAcquire; TSleep; THandle; TRelease; TAwait] st (TWake 3)) = [2%N] /\
+  holders (lim (tstep [TAcquire; TSleep; THandle; TRelease; TAwait] st (TWake 3))) = [3; 2]%N /\
+  Forall tok_label ls.
+Proof. vm_compute. repeat split; repeat constructor. Qed.
+
 Print Assumptions C13_conservation.
 Print Assumptions C13_bound.
 Print Assumptions C13_lowering.
@@ -79,3 +137,9 @@ Print Assumptions C13_raising.
 Print Assumptions C13_fifo.
 Print Assumptions C13_exit_serves_head.
 Print Assumptions C13_zero_refuses.
+Print Assumptions C13_session_shape.
+Print Assumptions C13_session_bound.
+Print Assumptions C13_request_handlers_bounded.
+Print Assumptions C13_message_handlers_bounded.
+Print Assumptions C13_session_no_leak.
+Print Assumptions C13_session_arrival_order.
